@@ -213,6 +213,9 @@ class RealCtx(BaseCtx):
     def concrete(self, x):
         return x
 
+    def toint(self, x):
+        return int(x)
+
 
 class SymCtx(BaseCtx):
     mode = 'sym'
@@ -295,6 +298,10 @@ class SymCtx(BaseCtx):
                 continue
             r = x if r is False else (r | x)
         return r
+
+    def toint(self, x):
+        """Concretise a symbolic integer (forks over its feasible values)."""
+        return int(x)
 
     def concrete(self, x):
         """Evaluate under the current path model (for observations)."""
